@@ -45,6 +45,9 @@ type pvMsg struct {
 	CE        int // -1 = none (zero key)
 	SigName   int
 	AccConn   int
+	// KBack / AccBack: WHICH ephemeral key of the accessory on that connection the seal key / the signed material was
+	// computed with — 0 the one of the latest start response, k the one k start responses earlier (recorded then)
+	KBack, AccBack int
 	Entry     string // none nokey key
 	EntryPk   int
 	N         int
@@ -68,7 +71,7 @@ func (m pvMsg) tok() string {
 		k := m.KKind
 		switch m.KKind {
 		case "eph":
-			k = fmt.Sprintf("eph %d %d", m.KConn, m.KE)
+			k = fmt.Sprintf("eph %d %d %d", m.KConn, m.KBack, m.KE)
 		case "rand":
 			k = fmt.Sprintf("rand %d", m.N)
 		}
@@ -81,7 +84,7 @@ func (m pvMsg) tok() string {
 				if m.CE >= 0 {
 					ce = fmt.Sprint(m.CE)
 				}
-				sig = fmt.Sprintf("valid %d %s %d %d", m.Signer, ce, m.SigName, m.AccConn)
+				sig = fmt.Sprintf("valid %d %s %d %d %d", m.Signer, ce, m.SigName, m.AccConn, m.AccBack)
 			case "garbage":
 				sig = fmt.Sprintf("garbage %d", m.N)
 			}
@@ -107,11 +110,21 @@ type pvEnv struct {
 	f      *accFixture
 	r      *rand.Rand
 	addrs  []string
-	accPub [][]byte
+	accPub [][][]byte // per connection: the accessory's ephemeral key of every start response, in order
 	esk    map[int][]byte
 	ids    map[int]*refIdentity
 	names  map[int]string
 	probes map[crypto.Cryptographer]uint64
+}
+
+// accKey: the accessory's ephemeral key `back` start responses before the latest one of the connection; a key the
+// accessory never sent when there is none.
+func (e *pvEnv) accKey(conn, back int) []byte {
+	l := e.accPub[conn]
+	if i := len(l) - 1 - back; i >= 0 && i < len(l) {
+		return l[i]
+	}
+	return refX25519Pub(randBytes(rand.New(rand.NewSource(int64(conn)*977+int64(back))), 32))
 }
 
 func (e *pvEnv) eph(n int) []byte {
@@ -184,7 +197,7 @@ func (e *pvEnv) concretise(conn int, m pvMsg) []byte {
 		case "zero":
 			key = make([]byte, 32)
 		case "eph":
-			key = refHKDF(refX25519(e.eph(m.KE), e.accPub[m.KConn]), "Pair-Verify-Encrypt-Salt", "Pair-Verify-Encrypt-Info")
+			key = refHKDF(refX25519(e.eph(m.KE), e.accKey(m.KConn, m.KBack)), "Pair-Verify-Encrypt-Salt", "Pair-Verify-Encrypt-Info")
 		default:
 			key = randBytes(e.r, 32)
 		}
@@ -198,7 +211,7 @@ func (e *pvEnv) concretise(conn int, m pvMsg) []byte {
 				if m.CE >= 0 {
 					ce = refX25519Pub(e.eph(m.CE))
 				}
-				info := append(append(append([]byte{}, ce...), []byte(e.name(m.SigName))...), e.accPub[m.AccConn]...)
+				info := append(append(append([]byte{}, ce...), []byte(e.name(m.SigName))...), e.accKey(m.AccConn, m.AccBack)...)
 				return ed25519.Sign(e.ident(m.Signer).Priv, info)
 			}
 			switch m.SigKind {
@@ -281,14 +294,38 @@ func (e *pvEnv) installed(addr string) string {
 	if try(make([]byte, 32)) {
 		return "session zero"
 	}
+	own := -1
+	for k, a := range e.addrs {
+		if a == addr {
+			own = k
+		}
+	}
 	for n, sk := range e.esk {
-		for _, ap := range e.accPub {
-			if try(refX25519(sk, ap)) {
-				return fmt.Sprintf("session %d", n)
+		for conn, l := range e.accPub {
+			for idx, ap := range l {
+				if try(refX25519(sk, ap)) {
+					if conn != own {
+						return fmt.Sprintf("session %d of-connection-%d", n, conn)
+					}
+					// named relative to the connection's latest accessory key (as the model's observation is)
+					return fmt.Sprintf("session %d %d", n, len(l)-1-idx)
+				}
 			}
 		}
 	}
 	return "session ?"
+}
+
+// sameSession: two observations of installed() name the same installed secret although a start response in between
+// moved the relative numbering by `shift`.
+func sameSession(before, after string, shift int) bool {
+	var e1, b1, e2, b2 int
+	if n1, _ := fmt.Sscanf(before, "session %d %d", &e1, &b1); n1 == 2 {
+		if n2, _ := fmt.Sscanf(after, "session %d %d", &e2, &b2); n2 == 2 {
+			return e1 == e2 && b1+shift == b2
+		}
+	}
+	return before == after
 }
 
 func (e *pvEnv) observe(addr string, status int, body []byte, pm string) string {
@@ -314,6 +351,23 @@ func (e *pvEnv) observe(addr string, status int, body []byte, pm string) string 
 		o = fmt.Sprintf("http-%d", status)
 	}
 	return o + " " + e.installed(addr)
+}
+
+// learn records the accessory's ephemeral key of a start response (false: the answer is not one).
+func (e *pvEnv) learn(conn, status int, body []byte) bool {
+	if status != 200 {
+		return false
+	}
+	items, ok := refTlvParse(body)
+	if st, _ := tlvFirst(items, tState); !ok || st != 2 || tlvHas(items, tError) {
+		return false
+	}
+	k := tlvGet(items, tPubKey)
+	if len(k) != 32 {
+		return false
+	}
+	e.accPub[conn] = append(e.accPub[conn], k)
+	return true
 }
 
 const pvPreludeE = 90
@@ -353,7 +407,11 @@ func genPvMsg(r *rand.Rand, conn, nconn int, e *int, started bool) pvMsg {
 		return genuineV3(conn, *e, name, pk)
 	case 7, 8, 9:
 		m := genuineV3(conn, *e, name, pk)
-		switch r.Intn(16) {
+		switch r.Intn(18) {
+		case 16:
+			m.KBack, m.AccBack = 1, 1 // the finish of the previous exchange of this connection, sent again
+		case 17:
+			m.AccBack = 1 + r.Intn(2) // signed over an accessory key of an earlier exchange, sealed under the current key
 		case 0:
 			m.Entry = "none" // unknown controller
 		case 1:
@@ -450,6 +508,11 @@ func pvCorpus() [][]pvStep {
 		{{0, start}, {0, g(func(m *pvMsg) { m.Intact = false })}, {0, genuineV3(0, 1, 0, 10)}},
 		{{0, start}, {0, pvMsg{Kind: "v3", Short: 7, Entry: "none"}}, {0, genuineV3(0, 1, 0, 10)}},
 		{{0, genuineV3(0, 1, 0, 10)}},
+		// F42: a second exchange with the SAME controller key on the connection; the recorded finish of the first one is
+		// sent again (sealed under, and signed over, the accessory key of the first exchange) — and the genuine one after it
+		{{0, start}, {0, genuineV3(0, 1, 0, 10)}, {0, start}, {0, g(func(m *pvMsg) { m.KBack, m.AccBack = 1, 1 })}},
+		{{0, start}, {0, genuineV3(0, 1, 0, 10)}, {0, start}, {0, g(func(m *pvMsg) { m.AccBack = 1 })}, {0, start}, {0, genuineV3(0, 1, 0, 10)}},
+		{{0, start}, {0, genuineV3(0, 1, 2, 12)}, {0, start}, {0, genuineV3(0, 1, 2, 12)}},
 	}
 }
 
@@ -533,9 +596,7 @@ func checkC03(c *Ctx) {
 			for k, m := range prelude {
 				st, resp, _, pm := env.f.Do(env.addrs[conn], "POST", "/pair-verify", "application/pairing+tlv8", env.concretise(conn, m))
 				if k == 0 {
-					items, _ := refTlvParse(resp)
-					env.accPub[conn] = tlvGet(items, tPubKey)
-					if len(env.accPub[conn]) != 32 {
+					if !env.learn(conn, st, resp) {
 						c.Violate("pair-verify start is not answered with the accessory's ephemeral key", cs.id, m.tok(), "32-byte key", fmt.Sprint(st, pm))
 						return
 					}
@@ -554,6 +615,10 @@ func checkC03(c *Ctx) {
 			env.setEntry(m)
 			before := env.installed(env.addrs[s.Conn])
 			st, resp, _, pm := env.f.Do(env.addrs[s.Conn], "POST", "/pair-verify", "application/pairing+tlv8", env.concretise(s.Conn, m))
+			shift := 0
+			if m.Kind == "v1" && m.Good && env.learn(s.Conn, st, resp) {
+				shift = 1 // a start response: the accessory's key of a new exchange (earlier keys are now one further back)
+			}
 			obs := env.observe(env.addrs[s.Conn], st, resp, pm)
 			implObs[ci] = append(implObs[ci], obs)
 			hist = append(hist, fmt.Sprintf("c%d:%s", s.Conn, m.tok()))
@@ -565,12 +630,12 @@ func checkC03(c *Ctx) {
 			e := lastStart[s.Conn]
 			genuine := e >= 0 && m.Kind == "v3" && m.tok() == genuineV3(s.Conn, e, m.Name, m.EntryPk).tok()
 			success := strings.HasPrefix(obs, "tlv 4 - ")
-			if (after != before || success) && !genuine {
+			if (!sameSession(before, after, shift) || success) && !genuine {
 				c.Violate("pair-verify verified a connection (or answered success) without a valid signature by the stored long-term key over this exchange",
 					cs.id, hist, "error answer, session unchanged ("+before+")", obs)
 			}
-			if genuine && after != fmt.Sprintf("session %d", e) {
-				c.Violate("pair-verify did not verify a connection that presented a valid finish", cs.id, hist, fmt.Sprintf("session %d", e), obs)
+			if genuine && after != fmt.Sprintf("session %d 0", e) {
+				c.Violate("pair-verify did not verify a connection that presented a valid finish", cs.id, hist, fmt.Sprintf("session %d 0 (the secret of this exchange)", e), obs)
 			}
 			if m.Kind == "v3" && !genuine && !(strings.HasPrefix(obs, "500") || (strings.HasPrefix(obs, "tlv") && !strings.HasPrefix(obs, "tlv 4 - ") && strings.Fields(obs)[2] != "-")) {
 				c.Violate("pair-verify failure is not answered with an error", cs.id, hist, "HTTP 500 or TLV error code", obs)
@@ -1214,6 +1279,7 @@ func c03PlainFraming(c *Ctx) {
 		type piece struct {
 			b []byte
 			w bool
+			i bool // w: the write is an interim response (100 Continue), not the response
 		}
 		var pieces []piece
 		for k := 0; k < 1+r.Intn(4); k++ {
@@ -1236,12 +1302,28 @@ func c03PlainFraming(c *Ctx) {
 			}
 			b = append(b, randBytes(r, bl)...)
 			pieces = append(pieces, piece{b: b})
+			if r.Intn(5) == 0 {
+				// net/http answers `Expect: 100-continue` when the handler starts to read the body — whether the body has
+				// already arrived or not; an adversary on the path can add the header field to any plaintext request
+				pieces = append(pieces, piece{w: true, i: true})
+			}
 			if r.Intn(6) > 0 {
 				pieces = append(pieces, piece{w: true})
 			}
 			if r.Intn(12) == 0 {
 				pieces = append(pieces, piece{w: true}) // a second write (a response in two pieces)
 			}
+		}
+		if i < 4 {
+			// corpus (F48): a complete request, an interim response, then more bytes before the response
+			get := []byte(pool[3])
+			m3 := append([]byte(pool[0]), randBytes(r, 37)...)
+			pieces = [][]piece{
+				{{b: get}, {w: true, i: true}, {b: get}, {w: true}},
+				{{b: m3}, {w: true, i: true}, {b: []byte("X")}, {w: true}},
+				{{b: m3[:len(m3)-5]}, {w: true, i: true}, {b: m3[len(m3)-5:]}, {w: true}, {b: get}},
+				{{b: m3}, {w: true, i: true}, {w: true, i: true}, {b: get}},
+			}[i]
 		}
 		// cut the byte runs into raw reads
 		var evs []piece
@@ -1272,7 +1354,9 @@ func c03PlainFraming(c *Ctx) {
 		flush()
 		var toks []string
 		for _, e := range evs {
-			if e.w {
+			if e.w && e.i {
+				toks = append(toks, "i")
+			} else if e.w {
 				toks = append(toks, "w")
 			} else {
 				toks = append(toks, "r "+hx(e.b))
@@ -1289,6 +1373,11 @@ func c03PlainFraming(c *Ctx) {
 		for _, e := range evs {
 			if closed {
 				outs = append(outs, "closed")
+				continue
+			}
+			if e.w && e.i {
+				conn.Write([]byte("HTTP/1.1 100 Continue\r\n\r\n"))
+				outs = append(outs, "ok")
 				continue
 			}
 			if e.w {
@@ -1330,6 +1419,19 @@ func c03PlainFraming(c *Ctx) {
 		m := model[k]
 		if p := strings.Index(m, " | "); p >= 0 {
 			m = m[:p]
+		}
+		// the concrete failure behind a difference of this kind: bytes the model refuses (they follow a complete request
+		// whose response has not been written) are handed on by the connection
+		mo, io := strings.Fields(m), strings.Fields(impls[i])
+		for k := 0; k < len(mo) && k < len(io); k++ {
+			if mo[k] == "refused" && io[k] == "ok" {
+				c.Violate("plaintext bytes that follow a complete request are accepted before its response was written (they are served after the response — after a pair-verify finish: as if they had arrived encrypted)", c.CaseID("plain", i),
+					map[string]interface{}{"events (r = raw read, hex; i = interim response 100 Continue written; w = response written)": ins[i], "accepted_event_index": k}, "refused, connection closed", "accepted")
+				break
+			}
+			if mo[k] != io[k] {
+				break
+			}
 		}
 		c.Same("plain", c.CaseID("plain", i), ins[i], m, impls[i])
 	}
